@@ -446,3 +446,81 @@ def k_lunar_day_next(eng):
 
     r = run_kernel(eng, "02.d/B/lunar-day-next", "02.d", "every lunar day of every month (regular or leap, 29..30 days), |n| <= 1000", build, None, replay)
     return _finish(r, holder["ctx"]) if "ctx" in holder else r
+
+
+def k_lunar_hour_next(eng):
+    """LunarHour::next(n): 2n hours later — the day moves by floor((hour + 2n) / 24) lunar days (LunarDay::next, 02.d), the hour is the remainder,
+    minute and second are kept"""
+    holder = {}
+
+    class DayAt:
+        def __init__(self, t):
+            self.t = t
+
+    class Part(T):
+        __slots__ = ("of", "what")
+
+        def __init__(self, s, of, what):
+            T.__init__(self, s, "Int")
+            self.of, self.what = of, what
+
+    def build(eng):
+        fields = struct_fields(os.path.join(REPO, "src/tyme/lunar.rs"), "LunarHour")
+        fn = M.find_fn(eng.fns, "next", "&LunarHour", 2)
+        ctx = _ctx(eng, {})
+        rec = Rec(ctx, "self", "LunarHour")
+        hour = rec.field(fields.index("hour"), "usize")
+        minute = rec.field(fields.index("minute"), "usize")
+        second = rec.field(fields.index("second"), "usize")
+        dayrec = rec.field(fields.index("day"), "LunarDay")
+        n = ctx.fresh_value("n", "isize")
+        holder.update(ctx=ctx)
+        model = ctx.model
+        base = model.call
+        built = {}
+
+        def call(c, fr, callee, args, path):
+            a = [model.deref(c, x) for x in args]
+            if callee == "<LunarDay as Tyme>::next" and a[0] is dayrec and isinstance(a[1], T):
+                return True, DayAt(a[1])
+            if callee in ("LunarDay::get_year", "LunarDay::get_month", "LunarDay::get_day") and isinstance(a[0], DayAt):
+                nm = c.sym(callee.split("::")[1])
+                c.inputs[nm] = ("Int", -(1 << 40), 1 << 40)
+                return True, Part(nm, a[0], callee.split("::")[1])
+            if callee == "LunarHour::from_ymd_hms" and len(a) == 6:
+                y, m, d = a[0], a[1], a[2]
+                if not (isinstance(y, Part) and isinstance(m, Part) and isinstance(d, Part) and y.of is m.of is d.of and (y.what, m.what, d.what) == ("get_year", "get_month", "get_day")):
+                    raise Unsupported("LunarHour::from_ymd_hms is not given the year, month and day of one stepped lunar day")
+                r = Rec(c, "built_hour", "LunarHour")
+                built[id(r)] = (y.of.t, a[3], a[4], a[5])
+                return True, r
+            return base(c, fr, callee, args, path)
+        model.call = call
+        paths = ctx.run(fn, [("refrec", rec), n])
+        pre = ["(<= 0 %s 23)" % hour.s, "(<= 0 %s 59)" % minute.s, "(<= 0 %s 59)" % second.s, "(<= (- 100000000) %s 100000000)" % n.s]
+
+        def parts(p):
+            r = p.ret
+            if id(r) in built:
+                return built[id(r)]
+            if r is rec or any(c[0] == "<LunarHour as Clone>::clone" and c[2] is r and model.deref(ctx, c[1][0]) is rec for c in p.calls):
+                return (I(0), hour, minute, second)
+            return None
+
+        def shape(p):
+            return None if parts(p) is not None else "result is neither built by LunarHour::from_ymd_hms nor a copy of self"
+
+        def posts(p):
+            dd, h2, mi2, s2 = parts(p)
+            return [("two-hours-per-step", "(= (+ (* 24 %s) %s) (+ %s (* 2 %s)))" % (dd.s, h2.s, hour.s, n.s)), ("hour-in-range", "(<= 0 %s 23)" % h2.s),
+                    ("minute-kept", "(= %s %s)" % (mi2.s, minute.s)), ("second-kept", "(= %s %s)" % (s2.s, second.s))]
+        return ctx, paths, pre, posts, shape
+
+    def replay(eng, model):
+        nat = eng.native("lunar_hour_next_scan")
+        if nat in ("NONE", "PANIC", "UNKNOWN", ""):
+            return nat == "PANIC", "native scan: " + (nat or "no output")
+        return True, "LunarHour::next(n) is not 2n hours later: " + nat
+
+    r = run_kernel(eng, "11.i/B/lunar-hour-next", "11.i", "every hour 0..23, minute, second, |n| <= 10^8", build, None, replay)
+    return _finish(r, holder["ctx"]) if "ctx" in holder else r
